@@ -9,8 +9,196 @@ use bc_envelope::prelude::*;
 use serde_json::Value;
 use std::collections::HashMap;
 
+pub struct SignerKey {
+    pub private: bc_components::SigningPrivateKey,
+    pub public: bc_components::SigningPublicKey,
+    pub ssh: bool,
+    pub scheme: String,
+}
+impl SignerKey {
+    pub fn options(&self) -> Option<bc_components::SigningOptions> {
+        if self.ssh {
+            Some(bc_components::SigningOptions::Ssh { namespace: "verif".to_string(), hash_alg: ssh_key::HashAlg::Sha256 })
+        } else {
+            None
+        }
+    }
+}
+pub struct RecipientKey {
+    pub private: bc_components::EncapsulationPrivateKey,
+    pub public: bc_components::EncapsulationPublicKey,
+    pub scheme: String,
+}
+#[derive(Default)]
+struct KeysInner {
+    sym: HashMap<String, SymmetricKey>,
+    signers: HashMap<String, std::rc::Rc<SignerKey>>,
+    recipients: HashMap<String, std::rc::Rc<RecipientKey>>,
+}
+/// Real key material for the symbolic key ids of a chain, created on first use.
 pub struct Keys {
-    pub sym: HashMap<String, SymmetricKey>,
+    inner: std::cell::RefCell<KeysInner>,
+    pub salt: u64,
+}
+
+fn fnv(s: &str) -> u64 {
+    let mut h: u64 = 0xcbf29ce484222325;
+    for b in s.as_bytes() {
+        h ^= *b as u64;
+        h = h.wrapping_mul(0x100000001b3);
+    }
+    h
+}
+
+impl Keys {
+    pub fn new(salt: u64) -> Self {
+        Keys { inner: Default::default(), salt }
+    }
+    pub fn sym(&self, name: &str) -> SymmetricKey {
+        self.inner.borrow_mut().sym.entry(name.to_string()).or_insert_with(SymmetricKey::new).clone()
+    }
+    pub fn signer(&self, name: &str) -> std::rc::Rc<SignerKey> {
+        let salt = self.salt;
+        self.inner
+            .borrow_mut()
+            .signers
+            .entry(name.to_string())
+            .or_insert_with(|| {
+                use bc_components::SignatureScheme as S;
+                let schemes = [
+                    // SSH-ECDSA is left out: about one signature in a few hundred fails to parse back from
+                    // its CBOR form ("length invalid", ssh-key 0.6.6 mpint encoding) - see DESIGN, finding D10
+                    (S::Schnorr, "Schnorr"), (S::Ecdsa, "Ecdsa"), (S::Ed25519, "Ed25519"), (S::SshEd25519, "SshEd25519"),
+                    (S::MLDSA44, "MLDSA44"), (S::Schnorr, "Schnorr"), (S::Ed25519, "Ed25519"), (S::Ecdsa, "Ecdsa"),
+                ];
+                let (sch, nm) = &schemes[((salt ^ fnv(name)) % schemes.len() as u64) as usize];
+                let (private, public) = sch.keypair_opt("verif@example");
+                std::rc::Rc::new(SignerKey { private, public, ssh: nm.starts_with("Ssh"), scheme: nm.to_string() })
+            })
+            .clone()
+    }
+    pub fn recipient(&self, name: &str) -> std::rc::Rc<RecipientKey> {
+        let salt = self.salt;
+        self.inner
+            .borrow_mut()
+            .recipients
+            .entry(name.to_string())
+            .or_insert_with(|| {
+                use bc_components::EncapsulationScheme as E;
+                let schemes = [(E::X25519, "X25519"), (E::MLKEM512, "MLKEM512"), (E::MLKEM768, "MLKEM768"), (E::X25519, "X25519")];
+                let (sch, nm) = &schemes[((salt ^ fnv(name)) % schemes.len() as u64) as usize];
+                let (private, public) = sch.keypair();
+                std::rc::Rc::new(RecipientKey { private, public, scheme: nm.to_string() })
+            })
+            .clone()
+    }
+    /// A symmetric key by name: caller-held keys k<n>, or content keys ck<n> learnt by opening a sealed message.
+    pub fn sym_key(&self, name: &str, ctx: &Ctx) -> Option<SymmetricKey> {
+        if name.starts_with("ck") {
+            return ctx.bind.get(&format!("ck:{}", name)).and_then(|b| SymmetricKey::from_data_ref(b).ok());
+        }
+        Some(self.sym(name))
+    }
+    pub fn describe(&self) -> String {
+        let i = self.inner.borrow();
+        let mut v: Vec<String> = i.signers.iter().map(|(k, s)| format!("{}:{}", k, s.scheme)).collect();
+        v.extend(i.recipients.iter().map(|(k, s)| format!("{}:{}", k, s.scheme)));
+        v.sort();
+        v.join(",")
+    }
+}
+
+fn is_opaque_atom(atom: &Value) -> bool {
+    matches!(tag_of(atom), "salt" | "sig" | "sealed" | "share")
+}
+
+/// Does the expected (annotated) element mention an opaque atom that is not bound yet?
+pub fn has_unbound(exp: &Value, ctx: &Ctx) -> bool {
+    match exp {
+        Value::Array(a) => {
+            if a.len() >= 2 && a[0].is_string() && is_opaque_atom(exp) {
+                return !ctx.bind.contains_key(&key_of(exp));
+            }
+            a.iter().any(|x| has_unbound(x, ctx))
+        }
+        _ => false,
+    }
+}
+
+/// First sight of an opaque leaf value: check what the specification says about it, then bind it.
+fn bind_opaque(atom: &Value, cbor: &dcbor::CBOR, ctx: &mut Ctx, keys: &Keys, path: &str) -> Result<(), String> {
+    use dcbor::prelude::*;
+    let bytes = cbor.to_cbor_data();
+    match tag_of(atom) {
+        "salt" => {
+            let s = bc_components::Salt::try_from(cbor.clone()).map_err(|e| format!("{}: not a Salt: {}", path, e))?;
+            if s.len() < 8 {
+                return Err(format!("{}: salt of {} bytes (minimum is 8)", path, s.len()));
+            }
+        }
+        "sig" => {
+            // <<"sig", call, k, signer, D>>
+            let sig = bc_components::Signature::try_from(cbor.clone()).map_err(|e| format!("{}: not a Signature: {}", path, e))?;
+            let who = atom[3].as_str().unwrap_or("");
+            let sk = keys.signer(who);
+            let msg = ctx.digest(&atom[4]).map_err(|e| format!("{}: eval: {}", path, e.0))?;
+            use bc_components::Verifier;
+            if !sk.public.verify(&sig, &msg) {
+                return Err(format!("{}: signature does not verify under {} ({}) over the specified digest", path, who, sk.scheme));
+            }
+        }
+        "sealed" => {
+            // <<"sealed", call, k, recipient, ck>>
+            let sm = bc_components::SealedMessage::try_from(cbor.clone()).map_err(|e| format!("{}: not a SealedMessage: {}", path, e))?;
+            let who = atom[3].as_str().unwrap_or("");
+            let rk = keys.recipient(who);
+            let plain = sm.decrypt(&rk.private).map_err(|e| format!("{}: sealed message does not open for {}: {}", path, who, e))?;
+            let key = SymmetricKey::from_tagged_cbor_data(plain).map_err(|e| format!("{}: sealed payload is not a key: {}", path, e))?;
+            let ck = atom[4].as_str().unwrap_or("");
+            if !ck.starts_with("ck") {
+                let k = keys.sym(ck);
+                if k.data() != key.data() {
+                    return Err(format!("{}: sealed message carries another key than {}", path, ck));
+                }
+            } else {
+                let id = format!("ck:{}", ck);
+                if let Some(b) = ctx.bind.get(&id) {
+                    if b.as_slice() != key.data() {
+                        return Err(format!("{}: recipients of one encryption got different content keys", path));
+                    }
+                } else {
+                    ctx.bind.insert(id, key.data().to_vec());
+                }
+            }
+        }
+        "share" => {
+            // <<"share", call, g, m, policy, ck>>
+            let sh = bc_components::SSKRShare::try_from(cbor.clone()).map_err(|e| format!("{}: not an SSKRShare: {}", path, e))?;
+            let (g, m) = (atom[2].as_u64().unwrap_or(0) as usize, atom[3].as_u64().unwrap_or(0) as usize);
+            let pol = &atom[4];
+            let groups = pol[1].as_array().ok_or("policy")?;
+            let ok = sh.group_index() + 1 == g
+                && sh.member_index() + 1 == m
+                && sh.group_threshold() as u64 == pol[0].as_u64().unwrap_or(0)
+                && sh.group_count() == groups.len()
+                && sh.member_threshold() as u64 == groups[g - 1][0].as_u64().unwrap_or(0);
+            if !ok {
+                return Err(format!("{}: share metadata differs from the policy position ({},{})", path, g, m));
+            }
+            let id = format!("split:{}", atom[1]);
+            let ident = sh.identifier().to_be_bytes().to_vec();
+            if let Some(b) = ctx.bind.get(&id) {
+                if *b != ident {
+                    return Err(format!("{}: shares of one split carry different identifiers", path));
+                }
+            } else {
+                ctx.bind.insert(id, ident);
+            }
+        }
+        _ => {}
+    }
+    ctx.bind.insert(key_of(atom), bytes);
+    Ok(())
 }
 
 fn tag_of(v: &Value) -> &str {
@@ -50,6 +238,30 @@ pub fn check(exp: &Value, real: &Envelope, ctx: &mut Ctx, keys: &Keys, path: &st
     if et != rt {
         return Err(format!("{}: expected case {} but found {}", path, et, rt));
     }
+    // an opaque leaf (salt, signature, sealed message, share) seen for the first time:
+    // check the predicate the specification attaches to it and bind it to its real bytes
+    if let EnvelopeCase::Leaf { cbor, .. } = real.case() {
+        if et == "leaf" && is_opaque_atom(&exp[1]) && !ctx.bind.contains_key(&key_of(&exp[1])) {
+            bind_opaque(&exp[1], cbor, ctx, keys, path)?;
+        }
+    }
+    // children first: their opaque values must be bound before this element's digest term can be evaluated
+    match real.case() {
+        EnvelopeCase::Assertion(a) => {
+            check(&exp[1], &a.predicate(), ctx, keys, &format!("{}/p", path))?;
+            check(&exp[2], &a.object(), ctx, keys, &format!("{}/o", path))?;
+        }
+        EnvelopeCase::Wrapped { envelope, .. } => {
+            check(&exp[1], envelope, ctx, keys, &format!("{}/w", path))?;
+        }
+        EnvelopeCase::Node { subject, assertions, .. } => {
+            check_node_children(exp, subject, assertions, ctx, keys, path)?;
+        }
+        // the content of an obscured element may hold opaque values its declared digest depends on
+        EnvelopeCase::Encrypted(msg) => check_encrypted(exp, msg, ctx, keys, path)?,
+        EnvelopeCase::Compressed(c) => check_compressed(exp, c, ctx, keys, path)?,
+        _ => {}
+    }
     // digest held by the element
     let dterm = ann_digest_term(exp);
     let want = ctx.digest(dterm).map_err(|e| format!("{}: eval: {}", path, e.0))?;
@@ -73,45 +285,94 @@ pub fn check(exp: &Value, real: &Envelope, ctx: &mut Ctx, keys: &Keys, path: &st
                 return Err(format!("{}: known value {} expected {}", path, value.value(), exp[1]));
             }
         }
-        EnvelopeCase::Assertion(a) => {
-            check(&exp[1], &a.predicate(), ctx, keys, &format!("{}/p", path))?;
-            check(&exp[2], &a.object(), ctx, keys, &format!("{}/o", path))?;
-        }
-        EnvelopeCase::Wrapped { envelope, .. } => {
-            check(&exp[1], envelope, ctx, keys, &format!("{}/w", path))?;
-        }
-        EnvelopeCase::Node { subject, assertions, .. } => {
-            check(&exp[1], subject, ctx, keys, &format!("{}/s", path))?;
-            let want_as = exp[2].as_array().ok_or("node assertions")?;
-            if want_as.len() != assertions.len() {
-                return Err(format!(
-                    "{}: node has {} assertion elements, expected {}",
-                    path, assertions.len(), want_as.len()
-                ));
-            }
-            // stored order must be strictly ascending by digest
-            for i in 1..assertions.len() {
-                if assertions[i - 1].digest().data() >= assertions[i].digest().data() {
-                    return Err(format!("{}: stored assertions not strictly ascending at {}", path, i));
-                }
-            }
-            for (i, wa) in want_as.iter().enumerate() {
-                let d = ctx.digest(ann_digest_term(wa)).map_err(|e| format!("{}: eval: {}", path, e.0))?;
-                match assertions.iter().find(|a| a.digest().data() == &d) {
-                    Some(ra) => check(wa, ra, ctx, keys, &format!("{}/a{}", path, i))?,
-                    None => {
-                        return Err(format!("{}: expected assertion element with digest {} is missing", path, hexs(&d)))
-                    }
-                }
-            }
-        }
+        EnvelopeCase::Assertion(_) | EnvelopeCase::Wrapped { .. } | EnvelopeCase::Node { .. } => {}
         EnvelopeCase::Elided(_) => {}
-        EnvelopeCase::Encrypted(msg) => {
-            check_encrypted(exp, msg, ctx, keys, path)?;
+        EnvelopeCase::Encrypted(_) | EnvelopeCase::Compressed(_) => {}
+    }
+    Ok(())
+}
+
+/// Subject and assertions may depend on each other for binding opaque values (an outer
+/// signature signs the wrapper that is the subject; a hasRecipient assertion reveals the key
+/// the subject is encrypted with): try subject-first, then assertions-first.
+fn check_node_children(exp: &Value, subject: &Envelope, assertions: &[Envelope], ctx: &mut Ctx, keys: &Keys, path: &str) -> Result<(), String> {
+    let mut t1 = ctx.clone();
+    let e1 = match check_node_children_in_order(exp, subject, assertions, &mut t1, keys, path, true) {
+        Ok(()) => {
+            *ctx = t1;
+            return Ok(());
         }
-        EnvelopeCase::Compressed(c) => {
-            check_compressed(exp, c, ctx, keys, path)?;
+        Err(e) => e,
+    };
+    let mut t2 = ctx.clone();
+    match check_node_children_in_order(exp, subject, assertions, &mut t2, keys, path, false) {
+        Ok(()) => {
+            *ctx = t2;
+            Ok(())
         }
+        Err(e2) => {
+            let soft = |e: &str| e.contains("unbound") || e.contains("unknown key");
+            Err(if soft(&e1) && !soft(&e2) { e2 } else { e1 })
+        }
+    }
+}
+
+fn check_node_children_in_order(exp: &Value, subject: &Envelope, assertions: &[Envelope], ctx: &mut Ctx, keys: &Keys, path: &str, subject_first: bool) -> Result<(), String> {
+    if subject_first {
+        check(&exp[1], subject, ctx, keys, &format!("{}/s", path))?;
+    }
+    let want_as = exp[2].as_array().ok_or("node assertions")?;
+    if want_as.len() != assertions.len() {
+        return Err(format!("{}: node has {} assertion elements, expected {}", path, assertions.len(), want_as.len()));
+    }
+    // stored order must be strictly ascending by digest
+    for i in 1..assertions.len() {
+        if assertions[i - 1].digest().data() >= assertions[i].digest().data() {
+            return Err(format!("{}: stored assertions not strictly ascending at {}", path, i));
+        }
+    }
+    // assertions first (a hasRecipient assertion reveals the content key the subject is encrypted with)
+    let mut used = vec![false; assertions.len()];
+    let mut later: Vec<(usize, &Value)> = vec![];
+    for (i, wa) in want_as.iter().enumerate() {
+        if has_unbound(wa, ctx) {
+            later.push((i, wa));
+            continue;
+        }
+        let d = ctx.digest(ann_digest_term(wa)).map_err(|e| format!("{}: eval: {}", path, e.0))?;
+        match assertions.iter().position(|a| a.digest().data() == &d) {
+            Some(j) if !used[j] => {
+                used[j] = true;
+                check(wa, &assertions[j], ctx, keys, &format!("{}/a{}", path, i))?
+            }
+            _ => return Err(format!("{}: expected assertion element with digest {} is missing", path, hexs(&d))),
+        }
+    }
+    // elements holding fresh opaque values cannot be located by digest: match them structurally
+    for (i, wa) in later {
+        let mut last_err = String::from("no candidate left");
+        let mut done = false;
+        for j in 0..assertions.len() {
+            if used[j] {
+                continue;
+            }
+            let mut trial = ctx.clone();
+            match check(wa, &assertions[j], &mut trial, keys, &format!("{}/a{}", path, i)) {
+                Ok(()) => {
+                    *ctx = trial;
+                    used[j] = true;
+                    done = true;
+                    break;
+                }
+                Err(e) => last_err = e,
+            }
+        }
+        if !done {
+            return Err(format!("{}: no assertion element matches the expected one ({})", path, last_err));
+        }
+    }
+    if !subject_first {
+        check(&exp[1], subject, ctx, keys, &format!("{}/s", path))?;
     }
     Ok(())
 }
@@ -127,7 +388,7 @@ fn check_encrypted(exp: &Value, msg: &EncryptedMessage, ctx: &mut Ctx, keys: &Ke
         return Ok(());
     }
     let kname = exp[2].as_str().unwrap_or("");
-    let key = keys.sym.get(kname).ok_or(format!("{}: unknown key {}", path, kname))?;
+    let key = &keys.sym_key(kname, ctx).ok_or(format!("{}: unknown key {}", path, kname))?;
     if exp[5].as_str() == Some("ok") {
         let plain = key
             .decrypt(msg)
